@@ -655,23 +655,32 @@ impl<const P: u8, const G: i8, const N: usize, const D: usize> NbFront<P, G, N, 
                 };
                 if let Some(st) = in_flight {
                     self.env.0.borrow_mut().meddles += 1;
-                    let pick = (pattern.rotate_right(it % 32 + 7) ^ it) % 4;
-                    let got = match (pick, st) {
-                        (0, _) => self.dev.send(&[0xEE, 0xEE, 0xEE], 9, pattern & 0x100 != 0),
-                        (1, _) => self.dev.join(JoinMode::OTAA { deveui: DevEui::from([0x11; 8]), appeui: AppEui::from([0x22; 8]), appkey: AppKey::from([0x33; 16]) }),
-                        // a timer that fires although nothing was asked of it is tolerated while the frame is being sent
-                        (2, 0) => self.dev.handle_event(Event::TimeoutFired),
-                        // a radio interrupt while the device waits for a window to start: refused without touching the radio
-                        (2, 1) | (3, 1) => self.dev.handle_event(Event::RadioEvent(nb_device::radio::Event::Phy(NbPhyEvent::RxDone))),
-                        _ => self.dev.send(&[], 1, false),
-                    };
-                    match got {
-                        Err(nb_device::Error::State(_)) => {}
-                        Ok(Response::NoUpdate) if st == 0 => {}
-                        other => {
-                            // not refused: the application sees this response now
-                            self.env.push(Ev::Resp("meddling call was not refused".into()));
-                            resp = other;
+                    let pick = (pattern.rotate_right(it % 32 + 7) ^ it) % 5;
+                    if pick == 4 {
+                        // the application takes the session out and hands the very same session back in
+                        // mid-transaction (cloned or through its serialised form): an identity, the
+                        // transaction goes on
+                        if let Err(e) = self.hand_back(pattern & 0x200 != 0) {
+                            return if e.starts_with("panic") { Outcome::Panic(e) } else { Outcome::Err(e) };
+                        }
+                    } else {
+                        let got = match (pick, st) {
+                            (0, _) => self.dev.send(&[0xEE, 0xEE, 0xEE], 9, pattern & 0x100 != 0),
+                            (1, _) => self.dev.join(JoinMode::OTAA { deveui: DevEui::from([0x11; 8]), appeui: AppEui::from([0x22; 8]), appkey: AppKey::from([0x33; 16]) }),
+                            // a timer that fires although nothing was asked of it is tolerated while the frame is being sent
+                            (2, 0) => self.dev.handle_event(Event::TimeoutFired),
+                            // a radio interrupt while the device waits for a window to start: refused without touching the radio
+                            (2, 1) | (3, 1) => self.dev.handle_event(Event::RadioEvent(nb_device::radio::Event::Phy(NbPhyEvent::RxDone))),
+                            _ => self.dev.send(&[], 1, false),
+                        };
+                        match got {
+                            Err(nb_device::Error::State(_)) => {}
+                            Ok(Response::NoUpdate) if st == 0 => {}
+                            other => {
+                                // not refused: the application sees this response now
+                                self.env.push(Ev::Resp("meddling call was not refused".into()));
+                                resp = other;
+                            }
                         }
                     }
                 }
